@@ -541,3 +541,117 @@ Proof.
 Qed.
 
 End Top.
+
+(** ** The six quantifier entry points in terms of [exists_s] / [forall_s] / [unique_s] *)
+
+Section Instances.
+Variable gt : ref -> ref -> bool.
+Variable C : Type.
+Variable cget : C -> N -> list ref -> option ref.
+Variable cadd : C -> N -> list ref -> ref -> C.
+Hypothesis Hlossy : lossy cget cadd.
+Variable Sg : N -> option (list (nat * ref)).
+
+Notation QOK := (QCacheOK cget Sg).
+
+Theorem exists_edge_sound : forall s c f vars vs,
+  BddOK s -> QOK s c -> ref_ok s f -> ref_ok s vars ->
+  (forall v, In v vs -> v < nlevels s) -> is_varset s vars vs ->
+  exists s' c' r, quant_edge gt C cget cadd s c QExists f vars = Some (s', c', r) /\
+    BddOK s' /\ extends s s' /\ QOK s' c' /\ ref_ok s' r /\
+    forall a, bfun_of s' r a = exists_s vs (bfun_of s f) a.
+Proof.
+  intros s c f vars vs B Q Of Ov Hlt Hvs.
+  apply (quant_edge_sound gt C cget cadd Hlossy Sg QExists s c f vars vs B Q Of Ov Hlt Hvs). discriminate.
+Qed.
+
+Theorem forall_edge_sound : forall s c f vars vs,
+  BddOK s -> QOK s c -> ref_ok s f -> ref_ok s vars ->
+  (forall v, In v vs -> v < nlevels s) -> is_varset s vars vs ->
+  exists s' c' r, quant_edge gt C cget cadd s c QForall f vars = Some (s', c', r) /\
+    BddOK s' /\ extends s s' /\ QOK s' c' /\ ref_ok s' r /\
+    forall a, bfun_of s' r a = forall_s vs (bfun_of s f) a.
+Proof.
+  intros s c f vars vs B Q Of Ov Hlt Hvs.
+  apply (quant_edge_sound gt C cget cadd Hlossy Sg QForall s c f vars vs B Q Of Ov Hlt Hvs). discriminate.
+Qed.
+
+Theorem unique_edge_sound : forall s c f vars vs,
+  BddOK s -> QOK s c -> ref_ok s f -> ref_ok s vars ->
+  (forall v, In v vs -> v < nlevels s) -> is_varset s vars vs -> NoDup vs ->
+  exists s' c' r, quant_edge gt C cget cadd s c QUnique f vars = Some (s', c', r) /\
+    BddOK s' /\ extends s s' /\ QOK s' c' /\ ref_ok s' r /\
+    forall a, bfun_of s' r a = unique_s vs (bfun_of s f) a.
+Proof.
+  intros s c f vars vs B Q Of Ov Hlt Hvs Hnd.
+  apply (quant_edge_sound gt C cget cadd Hlossy Sg QUnique s c f vars vs B Q Of Ov Hlt Hvs). intros _. exact Hnd.
+Qed.
+
+Theorem apply_exists_edge_sound : forall op s c f g vars vs,
+  BddOK s -> QOK s c -> ref_ok s f -> ref_ok s g -> ref_ok s vars ->
+  (forall v, In v vs -> v < nlevels s) -> is_varset s vars vs ->
+  exists s' c' r, apply_quant_edge gt C cget cadd s c QExists op f g vars = Some (s', c', r) /\
+    BddOK s' /\ extends s s' /\ QOK s' c' /\ ref_ok s' r /\
+    forall a, bfun_of s' r a = exists_s vs (lift2 op (bfun_of s f) (bfun_of s g)) a.
+Proof.
+  intros op s c f g vars vs B Q Of Og Ov Hlt Hvs.
+  apply (apply_quant_edge_sound gt C cget cadd Hlossy Sg QExists op s c f g vars vs B Q Of Og Ov Hlt Hvs).
+  discriminate.
+Qed.
+
+Theorem apply_forall_edge_sound : forall op s c f g vars vs,
+  BddOK s -> QOK s c -> ref_ok s f -> ref_ok s g -> ref_ok s vars ->
+  (forall v, In v vs -> v < nlevels s) -> is_varset s vars vs ->
+  exists s' c' r, apply_quant_edge gt C cget cadd s c QForall op f g vars = Some (s', c', r) /\
+    BddOK s' /\ extends s s' /\ QOK s' c' /\ ref_ok s' r /\
+    forall a, bfun_of s' r a = forall_s vs (lift2 op (bfun_of s f) (bfun_of s g)) a.
+Proof.
+  intros op s c f g vars vs B Q Of Og Ov Hlt Hvs.
+  apply (apply_quant_edge_sound gt C cget cadd Hlossy Sg QForall op s c f g vars vs B Q Of Og Ov Hlt Hvs).
+  discriminate.
+Qed.
+
+Theorem apply_unique_edge_sound : forall op s c f g vars vs,
+  BddOK s -> QOK s c -> ref_ok s f -> ref_ok s g -> ref_ok s vars ->
+  (forall v, In v vs -> v < nlevels s) -> is_varset s vars vs -> NoDup vs ->
+  exists s' c' r, apply_quant_edge gt C cget cadd s c QUnique op f g vars = Some (s', c', r) /\
+    BddOK s' /\ extends s s' /\ QOK s' c' /\ ref_ok s' r /\
+    forall a, bfun_of s' r a = unique_s vs (lift2 op (bfun_of s f) (bfun_of s g)) a.
+Proof.
+  intros op s c f g vars vs B Q Of Og Ov Hlt Hvs Hnd.
+  apply (apply_quant_edge_sound gt C cget cadd Hlossy Sg QUnique op s c f g vars vs B Q Of Og Ov Hlt Hvs).
+  intros _. exact Hnd.
+Qed.
+
+(** the fused forms return what the plain operator followed by the plain
+    quantification returns: the same reference (canonicity), whatever the two
+    caches contain *)
+Theorem apply_quant_is_apply_then_quant : forall q op s c1 c2 f g vars vs,
+  BddOK s -> QOK s c1 -> QOK s c2 -> ref_ok s f -> ref_ok s g -> ref_ok s vars ->
+  (forall v, In v vs -> v < nlevels s) -> is_varset s vars vs -> (q = QUnique -> NoDup vs) ->
+  exists s1 c1' r1 s2 c2' h s3 c3' r2,
+    apply_quant_edge gt C cget cadd s c1 q op f g vars = Some (s1, c1', r1) /\
+    apply_bin gt C cget cadd (S (nlevels s)) s c2 op f g = Some (s2, c2', h) /\
+    quant_edge gt C cget cadd s2 c2' q h vars = Some (s3, c3', r2) /\
+    forall a, bfun_of s1 r1 a = bfun_of s3 r2 a.
+Proof.
+  intros q op s c1 c2 f g vars vs B Q1 Q2 Of Og Ov Hlt Hvs Hu. pose proof (bo_wf s B) as H.
+  destruct (apply_quant_edge_sound gt C cget cadd Hlossy Sg q op s c1 f g vars vs B Q1 Of Og Ov Hlt Hvs Hu)
+    as [s1 [c1' [r1 [E1 [B1 [X1 [_ [_ S1]]]]]]]].
+  destruct (den_exists s f B Of) as [phi Df]. destruct (den_exists s g B Og) as [psi Dg].
+  destruct (q_apply_bin gt C cget cadd Hlossy Sg op s c2 f g phi psi B Q2 Df Dg)
+    as [s2 [c2' [h [E2 [B2 [X2 [Q2' D2]]]]]]].
+  assert (Hvs2 : is_varset s2 vars vs).
+  { intros a. rewrite <- Hvs. unfold bfun_of, FUEL, choice_of.
+    rewrite (ext_nlevels _ _ X2), (ext_l2v _ _ X2), (semk_extends s s2 H X2 _ vars _ Ov). reflexivity. }
+  assert (Hlt2 : forall v, In v vs -> v < nlevels s2) by (intros v Hv; rewrite (ext_nlevels _ _ X2); auto).
+  destruct (quant_edge_sound gt C cget cadd Hlossy Sg q s2 c2' h vars vs B2 Q2' (proj1 D2)
+              (ext_ref_ok _ _ _ X2 Ov) Hlt2 Hvs2 Hu)
+    as [s3 [c3' [r2 [E3 [_ [_ [_ [_ S3]]]]]]]].
+  exists s1, c1', r1, s2, c2', h, s3, c3', r2. repeat (split; [assumption|]).
+  intros a. rewrite S1, S3. apply quant_ext. intros a0. unfold lift2.
+  rewrite (bfun_of_den s2 h _ D2), (bfun_of_den s f phi Df), (bfun_of_den s g psi Dg).
+  unfold choice_of. rewrite (ext_l2v _ _ X2). reflexivity.
+Qed.
+
+End Instances.
